@@ -273,8 +273,11 @@ def run(mod, prop, tier, seed, scale, only, t0):
         "wall_s": round(wall, 2),
         "violations": len(violations),
     }
-    os.makedirs(os.path.join(ROOT, "evidence"), exist_ok=True)
-    with open(os.path.join(ROOT, "evidence", f"{prop}.json"), "w", encoding="utf-8") as f:
+    # evidence describes runs against /repo itself; runs redirected to a scratch copy (PV_REPO, developer tools)
+    # must not overwrite it
+    evdir = os.path.join(ROOT, "evidence") if os.path.realpath(core.REPO) == "/repo" else os.path.join(ROOT, ".work", "evidence-scratch")
+    os.makedirs(evdir, exist_ok=True)
+    with open(os.path.join(evdir, f"{prop}.json"), "w", encoding="utf-8") as f:
         json.dump(ev, f, indent=1, default=str)
 
     for s in subs:
